@@ -1,5 +1,327 @@
-"""route_i.py - Route I: LLVM IR -> C -> CBMC jobs (filled in later)"""
+"""route_i.py - Route I jobs: LLVM IR of extern-C wrappers around the real functions, translated
+(a) to SMT-LIB2 (loop-free integer kernels; own translator ir/ir2smt.py) and decided by z3 / cvc5, or
+(b) to C (ir/ir2c.py) and decided by CBMC with unwinding assertions.
+Every job regenerates the IR from /repo's current headers.
+"""
+import concurrent.futures as cf
+import json
+import os
+import re
+import subprocess
+import sys
+import time
+
+HERE = os.path.dirname(os.path.abspath(__file__))
+sys.path.insert(0, os.path.join(HERE, "ir"))
+import ir2smt  # noqa: E402
+
+CLANG = "clang++-14"
+CLANG_FLAGS = ["-std=c++11", "-O1", "-ffp-contract=off", "-fno-vectorize", "-fno-slp-vectorize", "-fno-unroll-loops",
+               "-fno-exceptions", "-S", "-emit-llvm"]
+
+
+def sh(cmd, timeout=None, inp=None):
+    try:
+        r = subprocess.run(cmd, input=inp, stdout=subprocess.PIPE, stderr=subprocess.STDOUT, text=True, timeout=timeout)
+        return r.returncode, r.stdout
+    except subprocess.TimeoutExpired:
+        return -9, "timeout"
+
+
+def emit_ir(wrapper, repo, workdir, extra=()):
+    os.makedirs(workdir, exist_ok=True)
+    ll = os.path.join(workdir, os.path.basename(wrapper).replace(".cpp", ".ll"))
+    rc, out = sh([CLANG] + CLANG_FLAGS + list(extra) + ["-I" + os.path.join(repo, "include"), wrapper, "-o", ll])
+    if rc != 0:
+        return None, out
+    return ll, ""
+
+
+SOLVERS = [
+    ("z3-4.8.12", ["z3", "-smt2", "-in"]),
+    ("z3-5.1.0", ["z3-new", "-smt2", "-in"]),
+    ("cvc5-1.0.3", ["cvc5", "--lang=smt2"]),
+    ("cvc5-bv-as-int", ["cvc5", "--lang=smt2", "--solve-bv-as-int=sum"]),
+]
+
+
+def solve(script, cap, want_model=False):
+    """runs all solvers in parallel under a cap; the first definite answer (sat/unsat, no '(error') wins;
+    a disagreement between definite answers makes the result inconclusive"""
+    answers = {}
+    t0 = time.time()
+
+    def one(s):
+        name, cmd = s
+        if name == "cvc5-bv-as-int" and "BitVec" not in script:
+            return name, "skip", "", 0.0
+        t = time.time()
+        rc, out = sh(cmd, timeout=cap, inp=script)
+        dt = time.time() - t
+        if "(error" in out:
+            return name, "error", out, dt
+        first = out.strip().split("\n")[0].strip() if out.strip() else ""
+        if first in ("sat", "unsat"):
+            return name, first, out, dt
+        return name, "unknown", out, dt
+
+    with cf.ThreadPoolExecutor(max_workers=len(SOLVERS)) as ex:
+        for name, ans, out, dt in ex.map(one, SOLVERS):
+            answers[name] = (ans, out, dt)
+    definite = {n: a for n, (a, _, _) in answers.items() if a in ("sat", "unsat")}
+    verdict = "unknown"
+    if definite:
+        vals = set(definite.values())
+        verdict = vals.pop() if len(vals) == 1 else "disagree"
+    return verdict, answers, time.time() - t0
+
+
+# ---- expression builder for obligations (both encodings from one description) ---------------------
+class B:
+    def __init__(self, mode, width=64):
+        self.mode, self.w = mode, width
+
+    def sort(self):
+        return "(_ BitVec %d)" % self.w if self.mode == "bv" else "Int"
+
+    def c(self, v):
+        return "(_ bv%d %d)" % (v % (1 << self.w), self.w) if self.mode == "bv" else str(v)
+
+    def _wrap(self, e):
+        return e if self.mode == "bv" else "(mod %s %d)" % (e, 1 << self.w)
+
+    def add(self, a, b):
+        return "(bvadd %s %s)" % (a, b) if self.mode == "bv" else self._wrap("(+ %s %s)" % (a, b))
+
+    def sub(self, a, b):
+        return "(bvsub %s %s)" % (a, b) if self.mode == "bv" else self._wrap("(- %s %s)" % (a, b))
+
+    def mul(self, a, b):
+        return "(bvmul %s %s)" % (a, b) if self.mode == "bv" else self._wrap("(* %s %s)" % (a, b))
+
+    def udiv(self, a, b):
+        return "(bvudiv %s %s)" % (a, b) if self.mode == "bv" else "(div %s %s)" % (a, b)
+
+    def urem(self, a, b):
+        return "(bvurem %s %s)" % (a, b) if self.mode == "bv" else "(mod %s %s)" % (a, b)
+
+    def ult(self, a, b):
+        return "(bvult %s %s)" % (a, b) if self.mode == "bv" else "(< %s %s)" % (a, b)
+
+    def ule(self, a, b):
+        return "(bvule %s %s)" % (a, b) if self.mode == "bv" else "(<= %s %s)" % (a, b)
+
+    def eq(self, a, b):
+        return "(= %s %s)" % (a, b)
+
+    def ite(self, c, a, b):
+        return "(ite %s %s %s)" % (c, a, b)
+
+    def in_range(self, v):
+        return "true" if self.mode == "bv" else "(and (<= 0 %s) (< %s %d))" % (v, v, 1 << self.w)
+
+
+def split_obligations(b):
+    """C16: obligations on discard_before / discard_after; t = total, r = rank, w = world"""
+    t, r, w = "t", "r", "w"
+    one, zero = b.c(1), b.c(0)
+    q, rem = b.udiv(t, w), b.urem(t, w)
+    before = lambda rr: "(w_discard_before %s %s %s)" % (t, rr, w)   # noqa: E731
+    sub = lambda rr: b.add(q, b.ite(b.ult(rr, rem), one, zero))       # noqa: E731  documented share of rank rr
+    after = lambda rr, calls: "(w_discard_after %s %s %s %s)" % (t, calls, rr, w)   # noqa: E731
+    r1 = b.add(r, one)
+    pre = "(and %s %s %s %s %s)" % (b.in_range(t), b.in_range(r), b.in_range(w), b.ult(zero, w), b.ult(r, w))
+    obs = [
+        ("first_rank_starts_at_zero", b.eq("(w_discard_before %s %s %s)" % (t, zero, w), zero)),
+        ("shares_are_contiguous", "(=> %s %s)" % (b.ult(r1, w), b.eq(b.add(before(r), sub(r)), before(r1)))),
+        ("last_share_ends_at_total", "(=> %s %s)" % (b.eq(r1, w), b.eq(b.add(before(r), sub(r)), t))),
+        ("share_ends_within_total", "(and %s %s)" % (b.ule(before(r), t), b.ule(sub(r), b.sub(t, before(r))))),
+        ("shares_differ_by_at_most_one_and_do_not_increase",
+         "(and (or %s %s) (=> %s %s))" % (b.eq(sub(r), q), b.eq(sub(r), b.add(q, one)), b.ult(r1, w), b.ule(sub(r1), sub(r)))),
+        ("after_is_total_minus_before_minus_share", b.eq(after(r, sub(r)), b.sub(b.sub(t, before(r)), sub(r)))),
+        ("every_rank_ends_at_the_same_position", b.eq(b.add(b.add(before(r), sub(r)), after(r, sub(r))), t)),
+    ]
+    decls = "".join("(declare-const %s %s)\n" % (v, b.sort()) for v in (t, r, w))
+    return decls, pre, obs
+
+
+REPLAY_SPLIT = r'''
+#include "hep/mc/generator_helper.hpp"
+#include <cstdio>
+#include <cstdlib>
+int main(int argc, char** argv) {
+    unsigned long t = std::strtoul(argv[1], 0, 10), r = std::strtoul(argv[2], 0, 10), w = std::strtoul(argv[3], 0, 10);
+    unsigned long q = t / w, rem = t % w;
+    auto sub = [&](unsigned long rr) { return q + (rr < rem ? 1UL : 0UL); };
+    unsigned long b = hep::discard_before(t, r, w), s = sub(r), a = hep::discard_after(t, s, r, w);
+    int bad = 0;
+    if (hep::discard_before(t, 0, w) != 0) { std::puts("first_rank_starts_at_zero"); bad = 1; }
+    if (r + 1 < w && b + s != hep::discard_before(t, r + 1, w)) { std::puts("shares_are_contiguous"); bad = 1; }
+    if (r + 1 == w && b + s != t) { std::puts("last_share_ends_at_total"); bad = 1; }
+    if (!(b <= t && s <= t - b)) { std::puts("share_ends_within_total"); bad = 1; }
+    if (!((s == q || s == q + 1) && (!(r + 1 < w) || sub(r + 1) <= s))) { std::puts("shares_differ_by_at_most_one_and_do_not_increase"); bad = 1; }
+    if (a != t - b - s) { std::puts("after_is_total_minus_before_minus_share"); bad = 1; }
+    if (b + s + a != t) { std::puts("every_rank_ends_at_the_same_position"); bad = 1; }
+    std::printf("before=%lu share=%lu after=%lu\n", b, s, a);
+    return bad;
+}
+'''
+
+EVAL_SPLIT = r'''
+#include "hep/mc/generator_helper.hpp"
+#include <cstdio>
+#include <cstdlib>
+int main(int argc, char** argv) {
+    for (int i = 1; i + 3 < argc + 1 && i + 3 <= argc; i += 4) {
+        unsigned long t = std::strtoul(argv[i], 0, 10), c = std::strtoul(argv[i+1], 0, 10), r = std::strtoul(argv[i+2], 0, 10), w = std::strtoul(argv[i+3], 0, 10);
+        std::printf("%lu %lu\n", hep::discard_before(t, r, w), hep::discard_after(t, c, r, w));
+    }
+    return 0;
+}
+'''
+
+
+def job_split(job, tier, repo, workdir):
+    """C16: work split helpers for all 64-bit totals / world sizes / ranks"""
+    res = dict(checks={}, violations=[], inconclusive=[], samples=[], obligations=0, discharged=0, queries=0, solver_s=0.0,
+               states=0, transitions=0, replays=0)
+    wrapper = os.path.join(HERE, "harness_i", "w_split.cpp")
+    ll, err = emit_ir(wrapper, repo, workdir)
+    if ll is None:
+        res["inconclusive"].append("clang failed: " + err[-400:])
+        return res
+    ll_text = open(ll).read()
+    cap = job.get("cap", 60 if tier == "quick" else 600)
+    width_note = job.get("assume", "")
+    # translator validation: SMT definitions evaluated on concrete vectors vs the g++ build of the real functions
+    vectors = [(10, 3, 1, 4), (1000, 334, 2, 3), (0, 0, 0, 1), (7, 1, 6, 7), (2 ** 64 - 1, 5, 2 ** 31 - 2, 2 ** 31 - 1),
+               (2 ** 63 + 12345, 2 ** 40, 7, 2 ** 20 + 3), (5, 0, 4, 9), (12, 4, 0, 3)]
+    exe = os.path.join(workdir, "eval_split")
+    open(exe + ".cpp", "w").write(EVAL_SPLIT)
+    rc, out = sh(["g++", "-std=c++11", "-O1", "-I" + os.path.join(repo, "include"), exe + ".cpp", "-o", exe])
+    if rc != 0:
+        res["inconclusive"].append("g++ failed: " + out[-300:])
+        return res
+    rc, real = sh([exe] + [str(x) for v in vectors for x in v])
+    real_vals = [tuple(int(x) for x in line.split()) for line in real.strip().split("\n")]
+    for mode in ("bv", "int"):
+        try:
+            defs, _ = ir2smt.ir_to_smt(ll_text, ["w_discard_before", "w_discard_after"], mode)
+        except ir2smt.Unsupported as ex:
+            res["inconclusive"].append("IR not translatable (%s): %s" % (mode, ex))
+            return res
+        b = B(mode)
+        script = defs + "\n"
+        for (t, c, r, w) in vectors:
+            script += "(simplify (w_discard_before %s %s %s))\n(simplify (w_discard_after %s %s %s %s))\n" % (
+                b.c(t), b.c(r), b.c(w), b.c(t), b.c(c), b.c(r), b.c(w))
+        rc, out = sh(["z3", "-smt2", "-in"], inp=script, timeout=60)
+        got = []
+        for line in out.strip().split("\n"):
+            line = line.strip()
+            m = re.match(r"^#x([0-9a-fA-F]+)$", line)
+            if m:
+                got.append(int(m.group(1), 16))
+            elif re.match(r"^\d+$", line):
+                got.append(int(line))
+            else:
+                m = re.match(r"^\(_ bv(\d+) \d+\)$", line)
+                if m:
+                    got.append(int(m.group(1)))
+        pairs = [(got[2 * i], got[2 * i + 1]) for i in range(len(got) // 2)]
+        res["replays"] += len(pairs)
+        if pairs != real_vals:
+            res["inconclusive"].append("translator validation failed (%s): smt %s vs real %s" % (mode, pairs, real_vals))
+            return res
+    res["samples"].append({"translator_validation": "8 vectors x 2 functions x 2 encodings equal to the g++ build",
+                           "vectors": [list(map(str, v)) for v in vectors[:3]]})
+
+    names = None
+    tasks = []
+    for mode in ("bv", "int"):
+        defs, _ = ir2smt.ir_to_smt(ll_text, ["w_discard_before", "w_discard_after"], mode)
+        b = B(mode)
+        decls, pre, obs = split_obligations(b)
+        if job.get("world_is_int", False):
+            pre = "(and %s %s)" % (pre, b.ult("w", b.c(2 ** 31)))
+        names = [n for n, _ in obs]
+        for name, formula in obs:
+            script = ("(set-logic ALL)\n(set-option :produce-models true)\n" + defs + "\n" + decls +
+                      "(assert %s)\n(assert (not %s))\n(check-sat)\n" % (pre, formula))
+            tasks.append((mode, name, script))
+
+    def work(task):
+        mode, name, script = task
+        verdict, answers, dt = solve(script, cap)
+        if verdict == "sat":
+            verdict2, answers2, _ = solve(script + "(get-value (t r w))\n", cap)
+            if verdict2 == "sat":
+                answers = answers2
+        return mode, name, verdict, answers, dt
+
+    with cf.ThreadPoolExecutor(max_workers=int(job.get("parallel", 5))) as ex:
+        done = list(ex.map(work, tasks))
+    for mode, name, verdict, answers, dt in done:
+        key = "C16|split.%s" % name
+        st = res["checks"].setdefault(key, dict(reached=0, discharged=0, violated=0, unknown=0))
+        res["queries"] += len([a for a in answers.values() if a[0] != "skip"])
+        res["solver_s"] += dt
+        res["transitions"] += 1
+        who = {n: a[0] + " %.1fs" % a[2] for n, a in answers.items() if a[0] != "skip"}
+        res["samples"].append({"obligation": name, "encoding": mode, "verdict": verdict, "solvers": who})
+        st.setdefault("by_encoding", {})[mode] = verdict
+        if verdict == "sat":
+            # counterexample: replay against the real functions
+            out = [a[1] for a in answers.values() if a[0] == "sat"][0]
+            vals = {}
+            for var in ("t", "r", "w"):
+                m = re.search(r"\(%s (?:#x([0-9a-fA-F]+)|(\d+)|\(_ bv(\d+) \d+\))\)" % var, out)
+                if m:
+                    vals[var] = int(m.group(1), 16) if m.group(1) else int(m.group(2) or m.group(3))
+            rexe = os.path.join(workdir, "replay_split")
+            if not os.path.exists(rexe):
+                open(rexe + ".cpp", "w").write(REPLAY_SPLIT)
+                sh(["g++", "-std=c++11", "-O1", "-I" + os.path.join(repo, "include"), rexe + ".cpp", "-o", rexe])
+            rc, rout = sh([rexe, str(vals.get("t", 0)), str(vals.get("r", 0)), str(vals.get("w", 1))])
+            res["replays"] += 1
+            confirmed = name in rout
+            res["violations"].append({"check": key, "confirmed": confirmed, "inputs": {k: str(v) for k, v in vals.items()},
+                                      "choices": [], "note": "encoding %s; real code says: %s" % (mode, rout.strip()[-200:]),
+                                      "replay_cmd": "%s %s %s %s" % (rexe, vals.get("t"), vals.get("r"), vals.get("w"))})
+    # an obligation is discharged if at least one encoding proves it (both encode the same machine semantics) and none refutes it
+    for name in names or []:
+        key = "C16|split.%s" % name
+        st = res["checks"][key]
+        enc = st.pop("by_encoding")
+        st["reached"] = 1
+        res["obligations"] += 1
+        if "sat" in enc.values():
+            st["violated"] = 1
+        elif "disagree" in enc.values():
+            st["unknown"] = 1
+            res["inconclusive"].append("solvers disagree on %s" % name)
+        elif "unsat" in enc.values():
+            st["discharged"] = 1
+            res["discharged"] += 1
+        else:
+            st["unknown"] = 1
+            res["inconclusive"].append("no solver decided %s within %ds (%s)" % (name, cap, enc))
+    res["states"] = len(names or [])
+    res["note"] = width_note
+    return res
+
+
+KINDS = {"split": job_split}
 
 
 def run_job(job, tier, idx, pid, repo):
-    return {"job": job, "inconclusive": ["route I not implemented yet"], "wall": 0.0}
+    t0 = time.time()
+    workdir = os.path.join(HERE, "out", pid, "ri_%03d" % idx)
+    try:
+        r = KINDS[job["kind"]](job, tier, repo, workdir)
+    except Exception as ex:  # noqa: BLE001
+        import traceback
+        r = dict(inconclusive=["route I job crashed: %s\n%s" % (ex, traceback.format_exc()[-800:])])
+    r["job"] = job
+    r["wall"] = time.time() - t0
+    return r
